@@ -46,22 +46,6 @@ fn run_line(line: &str) -> String {
             return "BADCASE".into();
         }
     }
-    if toks[0] == "REPEAT" && toks.len() > 2 {
-        // REPEAT <n> <cmd> ..: the same command n times in a row on this thread (state that builds up over MANY calls: counters, epochs,
-        // high-water marks); every answer must be the first answer
-        let n: usize = match toks[1].parse() {
-            Ok(n) if n >= 1 => n,
-            _ => return "BADCASE".into(),
-        };
-        let first = run_tokens(&toks[2..]);
-        for k in 1..n {
-            let again = run_tokens(&toks[2..]);
-            if again != first {
-                return format!("{} DIFF@{} {}", first, k + 1, again);
-            }
-        }
-        return format!("{} SAME", first);
-    }
     if toks[0] == "PAIR" {
         // several commands on one line, executed one after the other by this thread (state that survives between calls is shared)
         let segs: Vec<&[&str]> = toks[1..].split(|t| *t == "||").collect();
@@ -77,6 +61,22 @@ fn run_line(line: &str) -> String {
 fn run_tokens(toks: &[&str]) -> String {
     if toks.is_empty() {
         return "BADCASE".into();
+    }
+    if toks[0] == "REPEAT" && toks.len() > 2 {
+        // REPEAT <n> <cmd> ..: the same command n times in a row on this thread (state that builds up over MANY calls: counters, epochs,
+        // high-water marks); every answer must be the first answer
+        let n: usize = match toks[1].parse() {
+            Ok(n) if n >= 1 => n,
+            _ => return "BADCASE".into(),
+        };
+        let first = run_tokens(&toks[2..]);
+        for k in 1..n {
+            let again = run_tokens(&toks[2..]);
+            if again != first {
+                return format!("{} DIFF@{} {}", first, k + 1, again);
+            }
+        }
+        return format!("{} SAME", first);
     }
     let args = &toks[1..];
     let r = panic::catch_unwind(|| match toks[0] {
